@@ -18,7 +18,10 @@ CLAIMED = {
         note=TB + " Interner injectivity; regex/rustc_demangle enter as a predicate."),
     "C14": dict(
         text=("Theorems (Coq, unbounded op sequences and thread counts): every thread's DR0-3/DR7, decoded as the CPU decodes them, equals the "
-              "registry's active set slot by slot (C14_invariant), at most four, refusals without side effects, slot reuse, DR6 flush; DR7 encodings "
+              "registry's active set slot by slot (C14_invariant), at most four, refusals without side effects, slot reuse, DR6 flush; the same invariant over "
+              "sequences that also contain end-of-scope stops and restarts (C14_invariant_x), global watchpoints survive a restart with number / address / size / "
+              "condition and are re-armed in every thread, scoped ones vanish without a trace (C14_global_survives_restart), an end-of-scope stop removes exactly "
+              "the watchpoints bound to it (C14_local_removed_at_scope_end_partial); DR7 encodings "
               "proved equal to the architecture's over constants regenerated from the source. Tie: bit functions and real multi-threaded watchpoint "
               "histories (PTRACE_PEEKUSER of every thread) replayed through the model and the spec inside Coq."),
         ref="DESIGN.md section 5 C14",
@@ -152,8 +155,13 @@ CLAIMED.update({
     "C11": dict(
         text=("Theorems (Coq, any native trace and command history of the patch machine): drop of a launched debuggee leaves no process in every "
               "execution status (C11_drop_partial, C11_drop_never_started), detach restores the image (with C02), restart keeps the user breakpoints so that "
-              "the stops after a restart are the native projection again (C11_restart_keeps...). Refuted and recorded: detach() of a launched program then quit "
-              "leaves it behind. Tie: the full grid launched/attached x single/multi-threaded x stop kind x ending, a stress tail under CPU load, restart "
+              "the stops after a restart are the native projection again: by induction over all histories of break / break remove / continue / restart, "
+              "restart stops at the first later position carrying an old user breakpoint with the registry holding exactly the old (number, address) pairs and "
+              "memory = image + patches again (C11_restart_keeps_partial, C11_restart_history_partial, C11_restart_same_stops); every exit the core reports "
+              "carries the trace's exit code (C11_exit_code); detach / drop of an attached process at any prompt after any watchpoint and thread history "
+              "releases it alive with memory = image and every thread's DR7 enable bits clear (C11_external_survives_partial / _history_partial). Refuted and "
+              "recorded: detach() of a launched program then quit leaves it behind; removing the debugger's own entry-point breakpoint disarms all restarts; "
+              "a program ending during next / stepOut is reported with exit code 0 by the DAP adapter. Tie: the full grid launched/attached x single/multi-threaded x stop kind x ending, a stress tail under CPU load, restart "
               "histories on generated programs; the world is inspected from outside (/proc, own ptrace attach, ELF comparison, native exit status)."),
         ref="DESIGN.md section 5 C11 and section 11",
         technique="Coq proof (patch machine + process life-cycle state machine) + translator (Breakpoint::enable/disable word functions, Ties/BpTie.v) + end-to-end inspection of the real world state after every ending; restart stops decided in Coq by vm_compute",
